@@ -173,6 +173,13 @@ def runCase (prop : Prop') (inp obs : String) : CaseResult :=
       | some k => c15Cut f k
   let (sm, kind) := stmt model
   let (si, _) := stmt impl
+  -- C08 also checks, on the real lexer's streams, the two lexer facts the no-panic theorem assumes
+  let wfOK := prop != .c08 || ["F.toks", "L.toks"].all fun k =>
+    match (impl.get k).bind parseStream with
+    | some s => streamWFb s
+    | none => false
+  let sm := sm && wfOK
+  let si := si && wfOK
   -- known-finding classes (decidable predicates on the case = the model's own run)
   let klass :=
     match prop with
